@@ -378,18 +378,24 @@ class Space:
         reals = [c for (_, c, k) in self.vars if k == 'r']
         model = None
         if reals and grid:
-            extra = []
-            for c in reals:
-                kx = z3.Int('grid!' + c.decl().name())
-                extra.append(z3.And(c * GRID == z3.ToReal(kx), kx >= -GRID_MAX, kx <= GRID_MAX))
-            try:
-                ok, m = self._query(z3.And(*extra))
-                if ok:
-                    model = m
-            except Inconclusive:
-                self.q_unknown -= 1         # an optional nicety, not a verdict
-                self.queries -= 1
-                model = None
+            # 1. the cached model may already be dyadic
+            if self.model is not None and all(self._dyadic(self.model.eval(c, model_completion=True)) for c in reals):
+                model = self.model
+            else:
+                # 2. ask for a grid model with a short, non-fatal time limit (mixed Int/Real query)
+                extra = []
+                for c in reals:
+                    kx = z3.Int('grid!' + c.decl().name())
+                    extra.append(z3.And(c * GRID == z3.ToReal(kx), kx >= -GRID_MAX, kx <= GRID_MAX))
+                s = z3.Solver()
+                s.set('timeout', 2000)
+                s.add(*self.pc)
+                s.add(*extra)
+                t = time.perf_counter()
+                r = s.check()
+                self.solver_time += time.perf_counter() - t
+                if r == z3.sat:
+                    model = s.model()
         if model is None:
             if self.model is None:
                 ok, m = self._query()
@@ -408,6 +414,15 @@ class Space:
                 v = _val_to_py(model.eval(c, model_completion=True))
             out[name] = v
         return out
+
+    @staticmethod
+    def _dyadic(v):
+        if z3.is_int_value(v):
+            return True
+        if not z3.is_rational_value(v):
+            return False
+        d = v.denominator_as_long()
+        return d & (d - 1) == 0 and d <= (1 << 40) and abs(v.numerator_as_long()) < (1 << 52)
 
     def decisions(self):
         return [ent[0] for ent in self.prefix[:self.pos]]
